@@ -747,7 +747,7 @@ def A (l : L) (op : Op) : Prop :=
   | .rangeStart stop _ => op = .range stop [] none
   | .range stop acc _ g => op = .range stop acc (some g)
   | .rangeStop acc => ∃ stop g, op = .range stop acc g
-  | .sweepStart _ => op = .sweep none
+  | .sweepStart t _ => op = .sweep t
   | .sweepIter t _ _ _ => op = .sweep (some t)
   | .sweepExpire t _ _ _ _ _ => op = .sweep (some t)
 
@@ -870,17 +870,29 @@ theorem impl_stepOK : StepOK impl R A := by
     obtain ⟨stop, g, rfl⟩ := hA
     simp only [impl, step]
     exact ⟨_, by simp [fires], rfl, hnd⟩
-  | sweepStart oracle =>
+  | sweepStart t oracle =>
     simp only [A] at hA
     subst hA
     simp only [impl, step, sweepStep]
-    cases ha : advance oracle (iterData d d.gen) with
-    | none => exact ⟨_, by simp [fires], rfl, hnd⟩
-    | some x =>
-      obtain ⟨c, e, cs⟩ := x
-      simp only
-      right
-      exact ⟨absState d, .sweep (some d.now), by simp [fires, absState], ⟨rfl, hnd⟩, A_sweepAfterVisit _ _ _ _ _ _⟩
+    cases t with
+    | none =>
+      simp only [Option.getD_none]
+      cases ha : advance oracle (iterData d d.gen) with
+      | none => exact ⟨_, by simp [fires], rfl, hnd⟩
+      | some x =>
+        obtain ⟨c, e, cs⟩ := x
+        simp only
+        right
+        exact ⟨absState d, .sweep (some d.now), by simp [fires, absState], ⟨rfl, hnd⟩, A_sweepAfterVisit _ _ _ _ _ _⟩
+    | some t =>
+      simp only [Option.getD_some]
+      cases ha : advance oracle (iterData d d.gen) with
+      | none => exact ⟨_, by simp [fires], rfl, hnd⟩
+      | some x =>
+        obtain ⟨c, e, cs⟩ := x
+        simp only
+        left
+        exact ⟨⟨rfl, hnd⟩, A_sweepAfterVisit _ _ _ _ _ _⟩
   | sweepIter t acc oracle g =>
     simp only [A] at hA
     subst hA
